@@ -254,65 +254,54 @@ example : (valuesOf sampleWorld ['r']).toOption = some [['x']] ∧
       some [['r'], ['r', '.', 'a', '[', '0', ']'], "r.__empty__".toList, ['r', '.', 'a', '[', '2', ']']] := by
   decide +kernel
 
-/-- `Nodes.expand(via)` (paths before resolution) characterised on the tree: under the two decidable string-level side
-    conditions, for each child subtree of `via` — three levels deep — the entry itself when its tag is resolvable or it is
-    a terminal, else the same for its children (`expandOf`). -/
+/-- `Nodes.expand(via)` (paths before resolution) characterised on the tree: under the decidable string-level side
+    condition `RelativefySafe`, for each child subtree of `via` — three levels deep — the entry itself when its tag is
+    resolvable or it is a terminal, else the same for its children (`expandOf`). Since the repair 8ae8ddc
+    (`path.startswith(f'{cached}.')`) no condition on sibling tags is needed. -/
 theorem expand_spec (t : Entry) (h : WfTags t) (w : World) (hw : w.cache = mkCache t)
     (q : Path) (x : Entry) (hq : (q, x) ∈ pathfy t [⟨t.name, none⟩])
-    (hsafe : PrefixSafe w q x) (hrel : RelativefySafe q x) :
+    (hrel : RelativefySafe q x) :
     expandPaths w (encodePath q) = .ok ((expandOf w.table.canResolve 3 x q).map encodePath) :=
-  expandPaths_mkCache t h w hw q x hq hsafe hrel
+  expandPaths_mkCache t h w hw q x hq hrel
 
 /-- … and when, in addition, nothing expandable lies deeper than three levels (`expandOf … 3 = expandFullOf`, decidable),
     the result is the uncapped "nearest resolvable descendants + terminals without a resolvable ancestor". -/
 theorem expand_spec_full (t : Entry) (h : WfTags t) (w : World) (hw : w.cache = mkCache t)
     (q : Path) (x : Entry) (hq : (q, x) ∈ pathfy t [⟨t.name, none⟩])
-    (hsafe : PrefixSafe w q x) (hrel : RelativefySafe q x)
+    (hrel : RelativefySafe q x)
     (hdepth : expandOf w.table.canResolve 3 x q = expandFullOf w.table.canResolve x q) :
     expandPaths w (encodePath q) = .ok ((expandFullOf w.table.canResolve x q).map encodePath) := by
-  rw [← hdepth]; exact expand_spec t h w hw q x hq hsafe hrel
+  rw [← hdepth]; exact expand_spec t h w hw q x hq hrel
 
-example : PrefixSafe sampleWorld [⟨['r'], none⟩] sample ∧ RelativefySafe [⟨['r'], none⟩] sample ∧
+example : RelativefySafe [⟨['r'], none⟩] sample ∧
     (expandPaths sampleWorld ['r']).toOption =
       some [['r', '.', 'a', '[', '0', ']'], "r.__empty__".toList, ['r', '.', 'a', '[', '2', ']']] := by
   decide +kernel
-
-/-! ### the three ways `expand` departs from the tree (each replayed on the real `Nodes` by the search) -/
 
 /-- world over a tree in which exactly the given tags are resolvable -/
 def worldOf (t : Entry) (resolvable : List Str) : World :=
   { root := t, cache := mkCache t,
     table := { ctors := resolvable.map (fun s => (s, [⟨['K'], .always⟩])), fallback := some ⟨['T'], .always⟩ } }
 
-/-- `expand_spec` without `PrefixSafe`. -/
-def expand_noprefix_statement : Prop :=
-  ∀ (t : Entry) (w : World) (q : Path) (x : Entry), WfTags t → w.cache = mkCache t →
-    (q, x) ∈ pathfy t [⟨t.name, none⟩] → RelativefySafe q x →
-    expandPaths w (encodePath q) = .ok ((expandOf w.table.canResolve 3 x q).map encodePath)
-
-/-- siblings `list` (resolvable) and `list_comp`: `record` holds `r.list`, and `'r.list_comp'.startswith('r.list')`
-    drops the sibling. -/
+/-- regression witness of the repaired defect (fixed in 8ae8ddc): siblings `list` (resolvable) and `list_comp`; the
+    delimiter-less `'r.list_comp'.startswith('r.list')` used to drop the sibling. -/
 def prefixWitness : Entry :=
   .tree ['r'] [.tree "list".toList [.token ['x'] ['a']], .token "list_comp".toList ['b']]
 
-theorem expand_prefix_counterexample : ¬ expand_noprefix_statement := by
-  intro hs
-  have := hs prefixWitness (worldOf prefixWitness ["list".toList]) [⟨['r'], none⟩] prefixWitness
-    (by decide +kernel) rfl (by decide +kernel) (by decide +kernel)
-  have := congrArg Except.toOption this
-  revert this
-  decide +kernel
-
-example : (expandPaths (worldOf prefixWitness ["list".toList]) ['r']).toOption = some ["r.list".toList] ∧
+example : (expandPaths (worldOf prefixWitness ["list".toList]) ['r']).toOption
+      = some ["r.list".toList, "r.list_comp".toList] ∧
     (expandOf (worldOf prefixWitness ["list".toList]).table.canResolve 3 prefixWitness [⟨['r'], none⟩]).map encodePath
       = ["r.list".toList, "r.list_comp".toList] ∧
-    ¬ PrefixSafe (worldOf prefixWitness ["list".toList]) [⟨['r'], none⟩] prefixWitness := by
+    RelativefySafe [⟨['r'], none⟩] prefixWitness := by
   decide +kernel
+
+/-! ### the two remaining ways `expand` departs from the tree (latent: synthetic tag sets only; replayed on the real
+`Nodes` by the search) -/
 
 /-- `expand_spec` without `RelativefySafe`. -/
 def expand_norelativefy_statement : Prop :=
   ∀ (t : Entry) (w : World) (q : Path) (x : Entry), WfTags t → w.cache = mkCache t →
-    (q, x) ∈ pathfy t [⟨t.name, none⟩] → PrefixSafe w q x →
+    (q, x) ∈ pathfy t [⟨t.name, none⟩] →
     expandPaths w (encodePath q) = .ok ((expandOf w.table.canResolve 3 x q).map encodePath)
 
 /-- `via = r`, terminal `r.ar.t`, tag `a` resolvable: `'r.ar.t'.split('r')[1]` is `'.a'`, so the terminal seems to lie
@@ -322,7 +311,7 @@ def relativefyWitness : Entry := .tree ['r'] [.tree ['a', 'r'] [.token ['t'] ['v
 theorem expand_relativefy_counterexample : ¬ expand_norelativefy_statement := by
   intro hs
   have := hs relativefyWitness (worldOf relativefyWitness [['a']]) [⟨['r'], none⟩] relativefyWitness
-    (by decide +kernel) rfl (by decide +kernel) (by decide +kernel)
+    (by decide +kernel) rfl (by decide +kernel)
   have := congrArg Except.toOption this
   revert this
   decide +kernel
@@ -330,7 +319,7 @@ theorem expand_relativefy_counterexample : ¬ expand_norelativefy_statement := b
 /-- "three levels are enough": `expand_spec_full` without its depth hypothesis. -/
 def expand_depth3_statement : Prop :=
   ∀ (t : Entry) (w : World) (q : Path) (x : Entry), WfTags t → w.cache = mkCache t →
-    (q, x) ∈ pathfy t [⟨t.name, none⟩] → PrefixSafe w q x → RelativefySafe q x →
+    (q, x) ∈ pathfy t [⟨t.name, none⟩] → RelativefySafe q x →
     expandPaths w (encodePath q) = .ok ((expandFullOf w.table.canResolve x q).map encodePath)
 
 /-- a resolvable `d` four levels below `r` with only unresolvable tree entries in between is missed -/
@@ -339,7 +328,7 @@ def depthWitness : Entry := .tree ['r'] [.tree ['a'] [.tree ['b'] [.tree ['c'] [
 theorem expand_depth3_counterexample : ¬ expand_depth3_statement := by
   intro hs
   have := hs depthWitness (worldOf depthWitness [['d']]) [⟨['r'], none⟩] depthWitness
-    (by decide +kernel) rfl (by decide +kernel) (by decide +kernel) (by decide +kernel)
+    (by decide +kernel) rfl (by decide +kernel) (by decide +kernel)
   have := congrArg Except.toOption this
   revert this
   decide +kernel
